@@ -72,6 +72,51 @@ impl Elem for i64 {
     }
 }
 
+macro_rules! narrow_elem {
+    ($($t:ty),*) => {$(
+        impl Elem for $t {
+            const NAME: &'static str = stringify!($t);
+            fn up(self) -> Self {
+                self.saturating_add(1)
+            }
+            fn down(self) -> Self {
+                self.saturating_sub(1)
+            }
+            fn extremes() -> Vec<Self> {
+                vec![0, <$t>::MAX, <$t>::MIN]
+            }
+        }
+    )*};
+}
+narrow_elem!(u8, i8, u16, i16, u32, u64);
+
+/// Narrow integer types used over their whole range: axes of consecutive values whose length
+/// (but not `len - 1` or the span) exceeds the type, shorter ones, and every-2nd / every-3rd-value
+/// axes; queries: every value of the type (8 bit) or the standard set (16 bit and wider).
+fn narrow_jobs<T: Elem + TryFrom<i64>>(min: i64, max: i64) -> Vec<Job<T>>
+where
+    <T as TryFrom<i64>>::Error: Debug,
+{
+    let mut jobs = vec![];
+    let full = max - min + 1;
+    // precondition of the statement: the span and len - 1 are representable (<= MAX)
+    let mut cands: Vec<(i64, i64, i64)> = vec![];
+    for (n, step) in [(max + 1, 1i64), (max, 1), (max / 2 + 1, 2), (max / 3 + 1, 3), (5, 1), (2, max), (3, max / 2)] {
+        for first in [min, min / 2, -1, 0, 1, max - (n - 1) * step] {
+            if first >= min && first + (n - 1) * step <= max && !cands.contains(&(first, n, step)) {
+                cands.push((first, n, step));
+            }
+        }
+    }
+    for (first, n, step) in cands {
+        assert!((n - 1) * step <= max && n - 1 <= max);
+        let x: Vec<T> = (0..n).map(|i| T::try_from(first + i * step).unwrap()).collect();
+        let q: Vec<T> = if full <= 256 { (min..=max).map(|v| T::try_from(v).unwrap()).collect() } else { std_queries(&x) };
+        jobs.push(Job { name: format!("narrow:first{first}:n{n}:step{step}"), x, q, through_interp: n <= 300 });
+    }
+    jobs
+}
+
 /// reference: linear scan (short axes) / partition point (long axes)
 fn oracle<T: Elem>(x: &[T], q: T) -> usize {
     let n = x.len();
@@ -105,7 +150,7 @@ fn std_queries<T: Elem>(x: &[T]) -> Vec<T> {
         q.push(x[i].down());
         if i + 1 < x.len() {
             // midpoint without overflow
-            q.push(x[i] + (x[i + 1] - x[i]) / two);
+            q.push(x[i] / two + x[i + 1] / two);
         }
     }
     q.extend(T::extremes());
@@ -257,6 +302,30 @@ mod ndarray_interp_bounds {
     impl Bound for i64 {
         fn through_interp(_: &Job<Self>, _: &mut JobOut) {}
     }
+    macro_rules! int_bound {
+        ($($t:ty),*) => {$(
+            impl Bound for $t {
+                fn through_interp(job: &Job<Self>, out: &mut JobOut) {
+                    let n = job.x.len();
+                    let x = Array1::from(job.x.clone());
+                    let Ok(i1) = Interp1DBuilder::new(Array1::from_elem(n, 1 as $t)).x(x.clone()).build() else {
+                        out.violate(format!("{}:{}:interp1d-build", Self::NAME, job.name), "valid axis rejected", Json::Null);
+                        return;
+                    };
+                    for &q in &job.q {
+                        let want = oracle(&job.x, q);
+                        let g1 = catch(|| i1.get_index_left_of(q));
+                        out.evals += 1;
+                        out.transitions += 1;
+                        if g1 != Ok(want) {
+                            out.violate(format!("{}:{}:Interp1D:q={}", Self::NAME, job.name, q.show()), format!("Interp1D::get_index_left_of({}) = {g1:?}, bracket is {want}", q.show()), Json::Null);
+                        }
+                    }
+                }
+            }
+        )*};
+    }
+    int_bound!(u8, i8, u16, i16, u32, u64);
 }
 
 /// (a) every (n, guess g, rank r, query kind)
@@ -466,8 +535,22 @@ fn body(ctx: &Ctx) -> (Summary, Meta) {
         lookup_job(j, &mut o);
         o
     }));
+    macro_rules! narrow {
+        ($t:ty) => {{
+            let j = narrow_jobs::<$t>(<$t>::MIN as i64, (<$t>::MAX as i128).min(i64::MAX as i128) as i64);
+            sum.merge(run_jobs(ctx, concat!("lookup-", stringify!($t)), &j, |j| format!("{}:{}", stringify!($t), j.name), |j| {
+                let mut o = JobOut::default();
+                lookup_job(j, &mut o);
+                o
+            }));
+        }};
+    }
+    narrow!(u8);
+    narrow!(i8);
+    narrow!(u16);
+    narrow!(i16);
     let meta = Meta {
-        rule: "(a) every (n, initial guess g, rank r of the query, query kind in {interior, at a knot, knot+1ulp, knot-1ulp}) with n up to the bound; (b) every subset axis of the value set, the mixed-magnitude set 1e-300..1e300 and integer sets incl. +-2^30 / +-2^62 with every knot, both neighbours, midpoints, +-0, +-MAX, +-inf as queries; (c) spans 3, 0.3, 7, ... at far offsets with the 6 floats below the last knot; (d) long uniform/geometric/logarithmic/ulp-spaced axes (up to 10^4 knots) and long wide i32/i64 axes; every axis as contiguous, strided and reversed view, and through Interp1D/Interp2D::get_index_left_of. Oracle: linear scan. The hook counters classify every lookup by exit x (guess - bracket); non-trivial = lookup that leaves through the bisection.".into(),
+        rule: "(a) every (n, initial guess g, rank r of the query, query kind in {interior, at a knot, knot+1ulp, knot-1ulp}) with n up to the bound; (b) every subset axis of the value set, the mixed-magnitude set 1e-300..1e300 and integer sets incl. +-2^30 / +-2^62 with every knot, both neighbours, midpoints, +-0, +-MAX, +-inf as queries; (c) spans 3, 0.3, 7, ... at far offsets with the 6 floats below the last knot; (d) long uniform/geometric/logarithmic/ulp-spaced axes (up to 10^4 knots) and long wide i32/i64 axes; (e) u8 / i8 / u16 / i16 axes that use the whole range of the type (MAX+1 consecutive knots - e.g. 256 for u8, 128 for i8 at several offsets -, one fewer, every 2nd and 3rd value, two and three knots of maximal span; always with representable span and len - 1) with every value of the type as query; every axis as contiguous, strided and reversed view, and through Interp1D/Interp2D::get_index_left_of. Oracle: linear scan. The hook counters classify every lookup by exit x (guess - bracket); non-trivial = lookup that leaves through the bisection.".into(),
         bounds: format!("n <= {} for (a); {} f64 + {} f32 + {} i32 + {} i64 axis jobs; tier {}", if deep { 128 } else { 64 }, j64.len(), j32.len(), ji32.len(), ji64.len(), ctx.tier.name()),
         assumptions: vec!["precondition of the statement: finite span and finite (len-1)/span; integer axes with representable span".into()],
         extra: vec![],
